@@ -174,6 +174,10 @@ array_diff(void *buf1, void *buf2, uint32 tot_cnt, const char *name1, const char
         fp = fopen("hdiff.debug", "w");
     }
 
+    /* the buffers hold native-format values whatever the file flavour (standard,
+     * little-endian or native), so compare by the base number type */
+    type &= DFNT_MASK;
+
     switch (type) {
         case DFNT_INT8:
         case DFNT_CHAR8:
